@@ -415,6 +415,8 @@ def callable_env(forest, mod, interp, extra_env=None):
     def deep(v, depth=0):
         # functions referenced from module-level tuples / lists / dicts (dispatch tables) become callable, too
         if isinstance(v, FuncRef) and isinstance(v.node, ast.FunctionDef):
+            if v.mod == mod and extra_env and v.name in extra_env:
+                return extra_env[v.name]        # a stand-in supplied by the rule also stands in inside dispatch tables
             if v.mod == mod:
                 return FuncVal(v.node, genv, interp)
             if v.mod not in foreign:
